@@ -156,7 +156,7 @@ func baseClass(s string) string {
 
 func init() {
 	checks["C30"] = eng.Check{
-		Rule: "memory-view address argument: EVERY string of length 1..4 over {0,1,7,8,9,a,f,g,x,X,b,B,-,+,_} plus boundary literals around 2^64 in every base, against an independent integer-literal parser (decimal, 0x/0X, 0b/0B, 0-prefixed octal; fits 64 bits); emulator prompt value: the same strings (plus 'o' forms, empty line) x widths {1,2,4,8} typed through the real line reader: typed integer modulo 2^(8w) as a w-byte constant, errors for empty input, underscores, malformed numbers; crashes are violations. Non-trivial = input that denotes a number.",
+		Rule:        "memory-view address argument: EVERY string of length 1..4 over {0,1,7,8,9,a,f,g,x,X,b,B,-,+,_} plus boundary literals around 2^64 in every base, against an independent integer-literal parser (decimal, 0x/0X, 0b/0B, 0-prefixed octal; fits 64 bits); emulator prompt value: the same strings (plus 'o' forms, empty line) x widths {1,2,4,8} typed through the real line reader: typed integer modulo 2^(8w) as a w-byte constant, errors for empty input, underscores, malformed numbers; crashes are violations. Non-trivial = input that denotes a number.",
 		Assumptions: []string{"'0', '00..' (zero in a 0-prefixed form) may be accepted as 0 or rejected, and a leading '+' may be accepted or rejected: the property text does not decide these"},
 		Run: func(r *eng.Run) {
 			alpha := []byte("0179afgxXbB-+_")
